@@ -37,12 +37,15 @@ type Succ struct {
 	Quiet bool                `json:"quiet,omitempty"` // no open transaction after the op
 	IOSig string              `json:"iosig,omitempty"`
 	Ops   int                 `json:"ops,omitempty"`
+	Log   string              `json:"log,omitempty"` // logical state (JSON) when quiet
+	Obs   []string            `json:"obs,omitempty"` // observations of the last operation
 }
 
 // ExpandResult is the answer to an ExpandTask.
 type ExpandResult struct {
 	EngineError string `json:"engine_error,omitempty"`
 	Key         string `json:"key"`
+	Log         string `json:"log,omitempty"`
 	Succ        []Succ `json:"succ"`
 }
 
@@ -106,6 +109,7 @@ func replay(cfg pagedrv.Cfg, path []pagedrv.Op, extra *pagedrv.Op, flags []strin
 		}
 		if extra != nil && !env.Dead {
 			env.Viol = nil // only the last transition is judged here
+			env.LastOpLog = env.Disk.LogLen()
 			env.Apply(*extra)
 			for _, f := range flags {
 				if h := Hooks[f]; h != nil && !env.Dead {
@@ -137,6 +141,9 @@ func HandleExpand(raw []byte) interface{} {
 			return
 		}
 		res.Key = e.Key()
+		if e.T == nil && e.F != nil {
+			res.Log = e.Logical().String()
+		}
 		for _, op := range t.Alphabet {
 			if e.Enabled(op) {
 				enabled = append(enabled, op)
@@ -161,6 +168,12 @@ func HandleExpand(raw []byte) interface{} {
 			s.Quiet = e.T == nil
 			if !e.Dead {
 				s.Key = e.Key()
+				if s.Quiet && e.F != nil {
+					s.Log = e.Logical().String()
+				}
+				if e.Disk.LogLen() > e.LastOpLog {
+					s.IOSig = e.IOSig()
+				}
 			}
 		})
 		if err != nil {
@@ -182,6 +195,18 @@ type Node struct {
 	Op     pagedrv.Op
 	Depth  int
 	Quiet  bool
+	Log    string // logical state when quiet
+}
+
+// QuietAncestor returns the nearest ancestor (or n itself) without an open
+// transaction.
+func (n *Node) QuietAncestor() *Node {
+	for x := n; x != nil; x = x.Parent {
+		if x.Quiet || x.Parent == nil {
+			return x
+		}
+	}
+	return nil
 }
 
 // Path returns the operation list leading to n.
@@ -204,7 +229,7 @@ type Spec struct {
 	MaxStates int
 	Flags     []string
 	// OnTransition is called in the coordinator for every explored transition.
-	OnTransition func(from *Node, s *Succ, isNew bool)
+	OnTransition func(from *Node, s *Succ, isNew bool, to *Node)
 	// OnLevel is called after each completed level with the new nodes.
 	OnLevel func(depth int, fresh []*Node)
 }
@@ -225,7 +250,7 @@ func BFS(ctx *core.Ctx, pool *par.Pool, spec Spec) Stats {
 	first := true
 	for depth := 0; len(frontier) > 0; depth++ {
 		if spec.MaxDepth > 0 && depth >= spec.MaxDepth {
-			ctx.Cap("cfg %s: depth bound %d reached with %d frontier states", spec.Cfg.Name, spec.MaxDepth, len(frontier))
+			ctx.Set("bound_"+spec.Cfg.Name, fmt.Sprintf("all histories of at most %d operations over the alphabet (%d states at the bound unexpanded)", spec.MaxDepth, len(frontier)))
 			break
 		}
 		if ctx.Expired() {
@@ -256,6 +281,8 @@ func BFS(ctx *core.Ctx, pool *par.Pool, spec Spec) Stats {
 			}
 			if first && from == root {
 				root.Key = r.Key
+				root.Quiet = true
+				root.Log = r.Log
 				seen[r.Key] = root
 				st.States++
 			}
@@ -268,17 +295,21 @@ func BFS(ctx *core.Ctx, pool *par.Pool, spec Spec) Stats {
 						map[string]interface{}{"kind": "path", "cfg": spec.Cfg.Name, "path": path, "flags": spec.Flags})
 				}
 				isNew := false
+				var to *Node
 				if !s.Dead && s.Key != "" {
-					if _, ok := seen[s.Key]; !ok {
-						n := &Node{Key: s.Key, Parent: from, Op: s.Op, Depth: from.Depth + 1, Quiet: s.Quiet}
+					if ex, ok := seen[s.Key]; ok {
+						to = ex
+					} else {
+						n := &Node{Key: s.Key, Parent: from, Op: s.Op, Depth: from.Depth + 1, Quiet: s.Quiet, Log: s.Log}
 						seen[s.Key] = n
 						next = append(next, n)
 						st.States++
 						isNew = true
+						to = n
 					}
 				}
 				if spec.OnTransition != nil {
-					spec.OnTransition(from, s, isNew)
+					spec.OnTransition(from, s, isNew, to)
 				}
 			}
 		}, func(i int) { skipped++ })
@@ -344,4 +375,142 @@ func ReplayPath(raw json.RawMessage) []string {
 		out = append(out, fmt.Sprintf("violation: class=%s %s", v.Class, v.Msg))
 	}
 	return out
+}
+
+// ProbeTask asks a child to replay Path on a fresh instance and then run a
+// named probe on it (probes may change the instance: it is thrown away).
+type ProbeTask struct {
+	Type  string          `json:"type"`
+	Cfg   string          `json:"cfg"`
+	Path  []pagedrv.Op    `json:"path"`
+	Probe string          `json:"probe"`
+	Args  json.RawMessage `json:"args,omitempty"`
+	Flags []string        `json:"flags"`
+}
+
+// ProbeResult is the answer to a ProbeTask.
+type ProbeResult struct {
+	EngineError string                 `json:"engine_error,omitempty"`
+	Viol        []pagedrv.Violation    `json:"viol,omitempty"`
+	Info        map[string]interface{} `json:"info,omitempty"`
+}
+
+// Probe runs on a replayed instance.
+type Probe func(e *pagedrv.Env, args json.RawMessage, info map[string]interface{})
+
+// Probes is the registry of child-side probes.
+var Probes = map[string]Probe{}
+
+// HandleProbe is the child side of ProbeTask.
+func HandleProbe(raw []byte) interface{} {
+	var t ProbeTask
+	if err := json.Unmarshal(raw, &t); err != nil {
+		return ProbeResult{EngineError: err.Error()}
+	}
+	cfg, ok := pagedrv.CfgByName(t.Cfg)
+	if !ok {
+		return ProbeResult{EngineError: "unknown cfg " + t.Cfg}
+	}
+	p := Probes[t.Probe]
+	if p == nil {
+		return ProbeResult{EngineError: "unknown probe " + t.Probe}
+	}
+	res := ProbeResult{Info: map[string]interface{}{}}
+	env, sv, err := replay(cfg, t.Path, nil, t.Flags, func(e *pagedrv.Env) {
+		if e.Dead {
+			return
+		}
+		e.Viol = nil
+		p(e, t.Args, res.Info)
+	})
+	if err != nil {
+		return ProbeResult{EngineError: err.Error()}
+	}
+	res.Viol = append(env.Viol, sv...)
+	return res
+}
+
+// RunProbes runs one probe for each node; onResult is called in the
+// coordinator. Violations are reported through ctx with a replay document.
+func RunProbes(ctx *core.Ctx, pool *par.Pool, cfg pagedrv.Cfg, nodes []*Node, probe string, args interface{}, flags []string,
+	onResult func(n *Node, r *ProbeResult)) {
+	if len(nodes) == 0 {
+		return
+	}
+	argRaw, _ := json.Marshal(args)
+	tasks := make([][]byte, len(nodes))
+	for i, n := range nodes {
+		tasks[i], _ = json.Marshal(ProbeTask{Type: "probe", Cfg: cfg.Name, Path: n.Path(), Probe: probe, Args: argRaw, Flags: flags})
+	}
+	skipped := 0
+	pool.Run(tasks, ctx.Deadline, 10*time.Minute, func(i int, raw []byte, terr *par.TaskError) {
+		n := nodes[i]
+		if terr != nil {
+			ctx.EngineError("probe %s %s [%s]: %s %s", probe, cfg.Name, pagedrv.PathString(n.Path()), terr.Msg, terr.Stderr)
+			return
+		}
+		var r ProbeResult
+		if err := json.Unmarshal(raw, &r); err != nil {
+			ctx.EngineError("bad probe result: %v", err)
+			return
+		}
+		if r.EngineError != "" {
+			ctx.EngineError("probe %s: %s", probe, r.EngineError)
+			return
+		}
+		for _, v := range r.Viol {
+			ctx.Violate(v.Class, fmt.Sprintf("cfg %s after [%s], probe %s: %s", cfg.Name, pagedrv.PathString(n.Path()), probe, v.Msg),
+				map[string]interface{}{"kind": "probe", "cfg": cfg.Name, "path": n.Path(), "probe": probe, "args": args, "flags": flags})
+		}
+		if onResult != nil {
+			onResult(n, &r)
+		}
+	}, func(int) { skipped++ })
+	if skipped > 0 {
+		ctx.Cap("cfg %s: deadline reached, probe %s skipped for %d states", cfg.Name, probe, skipped)
+	}
+}
+
+// ReplayDoc re-executes a "path" or "probe" replay document.
+func ReplayDoc(raw json.RawMessage) []string {
+	var hdr struct {
+		Kind string `json:"kind"`
+	}
+	json.Unmarshal(raw, &hdr)
+	if hdr.Kind == "twin" {
+		return ReplayTwin(raw)
+	}
+	if hdr.Kind != "probe" {
+		return ReplayPath(raw)
+	}
+	var d struct {
+		Cfg   string          `json:"cfg"`
+		Path  []pagedrv.Op    `json:"path"`
+		Probe string          `json:"probe"`
+		Args  json.RawMessage `json:"args"`
+		Flags []string        `json:"flags"`
+	}
+	if err := json.Unmarshal(raw, &d); err != nil {
+		return []string{"violation: bad replay document: " + err.Error()}
+	}
+	fmt.Printf("cfg %s path: %s ; probe %s %s\n", d.Cfg, pagedrv.PathString(d.Path), d.Probe, d.Args)
+	t, _ := json.Marshal(ProbeTask{Type: "probe", Cfg: d.Cfg, Path: d.Path, Probe: d.Probe, Args: d.Args, Flags: d.Flags})
+	r := HandleProbe(t).(ProbeResult)
+	var out []string
+	if r.EngineError != "" {
+		out = append(out, "violation: engine error: "+r.EngineError)
+	}
+	for k, v := range r.Info {
+		fmt.Printf("  info: %s=%v\n", k, v)
+	}
+	for _, v := range r.Viol {
+		out = append(out, fmt.Sprintf("violation: class=%s %s", v.Class, v.Msg))
+	}
+	return out
+}
+
+// Replay replays path (+ extra) on a fresh instance (exported for checks with
+// their own task types).
+func Replay(cfg pagedrv.Cfg, path []pagedrv.Op, extra *pagedrv.Op, flags []string, after func(e *pagedrv.Env)) (*pagedrv.Env, []pagedrv.Violation, error) {
+	return replay(cfg, path, extra, flags, after)
 }
